@@ -6,6 +6,7 @@
 -/
 import PySpikeVerif.Spec.Sync
 import PySpikeVerif.Proofs.TauLaws
+import PySpikeVerif.Proofs.SyncScan
 
 namespace PySpike.C03
 open PySpike
@@ -54,5 +55,52 @@ theorem spec_example_filter :
 /-- exact tie |a-b| = τ is not coincident: trains [1] and [6] on [0,10]: τ = 10/2 = 5 = |1-6| -/
 theorem tie_example : (coincProfile [1] [6] 0 10 0 0).map (·.2.1) = [0, 0, 0, 0] := by decide +kernel
 theorem near_tie_example : (coincProfile [1] [5] 0 10 0 0).map (·.2.1) = [1, 1, 1, 1] := by decide +kernel
+
+/-! ### the scan theorems (Proofs/SyncScan.lean, work package B1) — for all strictly increasing trains,
+    every max_tau and MRTS, no bound on the number of spikes -/
+
+/-- **the bivariate SPIKE-Sync profile is the pairwise definition**: one entry per distinct spike
+    time in increasing order — (t, 2, 2) where both trains spike at `t`, otherwise multiplicity 1
+    and value 1 exactly when the other train has a spike closer than the coincidence window —
+    framed by the two edge entries -/
+theorem profile_is_pairwise_definition (s1 s2 : List Q) (ts te mt m : Q)
+    (h1 : StrictSorted s1) (h2 : StrictSorted s2) :
+    coincProfile s1 s2 ts te mt m = frameProfile ts te (scanSpec 1 1 2 s1 s2 (trueMax ts te mt) m) :=
+  coincProfile_eq_spec s1 s2 ts te mt m h1 h2
+
+/-- the per-spike coincidence indicator used by the filter agrees with the same definition -/
+theorem filter_indicator_is_pairwise_definition (s1 s2 : List Q) (ts te mt m : Q)
+    (h1 : StrictSorted s1) (h2 : StrictSorted s2) :
+    coincSingle s1 s2 ts te mt m = singleSpec s1 s2 (trueMax ts te mt) m :=
+  coincSingle_eq_spec s1 s2 ts te mt m h1 h2
+
+/-- the window is at most half of each inter-spike interval between the two spikes' neighbours -/
+theorem window_le_half_isi (s1 s2 : List Q) (tm m a b : Q) :
+    (b < a → (∀ p, predOf s1 a = some p → tauSpec s1 s2 tm m a b ≤ (a - p) / 2) ∧
+             (∀ f, succOf s2 b = some f → tauSpec s1 s2 tm m a b ≤ (f - b) / 2)) ∧
+    (a ≤ b → (∀ f, succOf s1 a = some f → tauSpec s1 s2 tm m a b ≤ (f - a) / 2) ∧
+             (∀ p, predOf s2 b = some p → tauSpec s1 s2 tm m a b ≤ (b - p) / 2)) :=
+  coinc_window_le_half_isi s1 s2 tm m a b
+
+/-- coincident spikes are neighbours: no spike of either train lies strictly between them (so the
+    scan, which only ever compares neighbouring events, misses nothing — and the "BUG?" comment in
+    the source is harmless: the overwritten previous entry is always the partner's) -/
+theorem coincident_spikes_adjacent (s1 s2 : List Q) (tm m a b : Q) (h1 : StrictSorted s1)
+    (h2 : StrictSorted s2) (hc : Coinc s1 s2 tm m a b) (ha : a ∈ s1) (hb : b ∈ s2) (hab : a ≠ b) :
+    ∀ x, x ∈ s1 ∨ x ∈ s2 → ¬ (min a b < x ∧ x < max a b) :=
+  coinc_adjacent s1 s2 tm m a b h1 h2 hc ha hb hab
+
+/-- coincidence is one-to-one … -/
+theorem one_to_one (s1 s2 : List Q) (tm m : Q) (h1 : StrictSorted s1) (h2 : StrictSorted s2) :
+    (∀ a b b', Coinc s1 s2 tm m a b → Coinc s1 s2 tm m a b' → a ∈ s1 → b ∈ s2 → b' ∈ s2 →
+        a ≠ b → a ≠ b' → b = b') ∧
+    (∀ a a' b, Coinc s1 s2 tm m a b → Coinc s1 s2 tm m a' b → a ∈ s1 → a' ∈ s1 → b ∈ s2 →
+        a ≠ b → a' ≠ b → a = a') := coinc_one_to_one s1 s2 tm m h1 h2
+
+/-- … so both trains contribute the same number of coincident spikes -/
+theorem equal_counts (s1 s2 : List Q) (tm m : Q) (h1 : StrictSorted s1) (h2 : StrictSorted s2) :
+    (scanSpec 1 1 2 s1 s2 tm m).countP (fun e => decide (e.1 ∈ s1 ∧ e.1 ∉ s2 ∧ e.2.1 = 1)) =
+    (scanSpec 1 1 2 s1 s2 tm m).countP (fun e => decide (e.1 ∈ s2 ∧ e.1 ∉ s1 ∧ e.2.1 = 1)) :=
+  coinc_counts_equal s1 s2 tm m h1 h2
 
 end PySpike.C03
